@@ -186,12 +186,21 @@ def gen_points(rng, n):
                 return (g.desc(X, rng) if isinstance(g, G.WeierG) else g.desc(X)) + g.mods(X, rng)
             ctl = rng.choice([0, 0xFFFFFFFF]); cs = "0" if ctl == 0 else "0xffffffff"
             kind = rng.choice(["cond", "select", "condneg", "equals", "isneutral"])
+            # the selected / negated point is also used as an operand afterwards: encode / equals do not read every internal
+            # coordinate (T of the extended coordinates, for instance)
+            R_ = g.rand_point(rng)
             if kind == "cond":
-                out.append(case1(T + "set_cond %s %s %s" % (D(P), D(Q), cs), "OK " + g.enc(Q if ctl else P), ["point:set_cond:ctl=%d" % (1 if ctl else 0), cn + ":point-select"]))
+                S_ = Q if ctl else P
+                out.append(Case([T + "set_cond >1 %s %s %s" % (D(P), D(Q), cs), T + "add $1 %s" % D(R_), T + "double $1"],
+                                ["OK " + g.enc(S_), "OK " + g.enc(g.add(S_, R_)), "OK " + g.enc(g.add(S_, S_))], ["point:set_cond:ctl=%d" % (1 if ctl else 0), cn + ":point-select", "point:result-reused"]))
             elif kind == "select":
-                out.append(case1(T + "select %s %s %s" % (D(P), D(Q), cs), "OK " + g.enc(Q if ctl else P), ["point:select:ctl=%d" % (1 if ctl else 0), cn + ":point-select"]))
+                S_ = Q if ctl else P
+                out.append(Case([T + "select >1 %s %s %s" % (D(P), D(Q), cs), T + "add $1 %s" % D(R_), T + "sub %s $1" % D(R_)],
+                                ["OK " + g.enc(S_), "OK " + g.enc(g.add(S_, R_)), "OK " + g.enc(g.sub(R_, S_))], ["point:select:ctl=%d" % (1 if ctl else 0), cn + ":point-select", "point:result-reused"]))
             elif kind == "condneg":
-                out.append(case1(T + "condneg %s %s" % (D(P), cs), "OK " + g.enc(g.neg(P) if ctl else P), ["point:condneg:ctl=%d" % (1 if ctl else 0), cn + ":point-condneg"]))
+                S_ = g.neg(P) if ctl else P
+                out.append(Case([T + "condneg >1 %s %s" % (D(P), cs), T + "add $1 %s" % D(R_)],
+                                ["OK " + g.enc(S_), "OK " + g.enc(g.add(S_, R_))], ["point:condneg:ctl=%d" % (1 if ctl else 0), cn + ":point-condneg", "point:result-reused"]))
             elif kind == "equals":
                 t = rng.randrange(4)
                 if t == 0:
